@@ -11,6 +11,7 @@ open Py Xs.Bind Xs.Bind.F1 Xs.Bind.FN
 def itemTreeNN (M : NsMap) (rec : XmlVar → Val → Tree) (var : XmlVar) (y : Val) : Tree :=
   match y with
   | .obj .. => rec var y
+  | .any .. => treeOfAny M y
   | y => primItemTree M var y
 
 /-- the pairs `next_value` yields -/
@@ -43,29 +44,29 @@ def attrPairsT (cfg : SerCfg) (M : NsMap) (vars : List XmlVar) (fields : List (S
 def attrEvsT (cfg : SerCfg) (vars : List XmlVar) (fields : List (Str × Val)) (xt : Option QN) : List Ev :=
   attrEvsN cfg vars fields ++ typeEvs xt
 
-def treeNN (Γ : Ctx) (cfg : SerCfg) (M : NsMap) : Nat → Option Str → Bool → Option QN → QN → Val → Tree
-  | n + 1, pns, nl, xt, q, .obj c fields =>
+def treeNN (Γ : Ctx) (cfg : SerCfg) (M : NsMap) : Nat → Option Str → Option QN → QN → Val → Tree
+  | n + 1, pns, xt, q, .obj c fields =>
     match metaOf Γ c pns with
     | none => emptyTree M q
     | some m =>
       match m.text with
       | some tv =>
         .node q (if textHasData (look fields tv.name) then attrPairsT cfg M m.attributeVars fields xt
-                 else attrPairsT cfg M m.attributeVars fields xt ++ nilAttr (nl || m.nillable)) M
+                 else attrPairsT cfg M m.attributeVars fields xt ++ nilAttr m.nillable) M
           (textTextN (look fields tv.name)) [] none
       | none =>
         .node q
-          (if (kidsN M (fun var y => treeNN Γ cfg M n (targetUri m.qname) var.nillable
+          (if (kidsN M (fun var y => treeNN Γ cfg M n (targetUri m.qname)
                 (xtOf Γ (targetUri m.qname) var y) var.qname y) m fields).isEmpty
-           then attrPairsT cfg M m.attributeVars fields xt ++ nilAttr (nl || m.nillable)
+           then attrPairsT cfg M m.attributeVars fields xt ++ nilAttr m.nillable
            else attrPairsT cfg M m.attributeVars fields xt) M none
-          (kidsN M (fun var y => treeNN Γ cfg M n (targetUri m.qname) var.nillable
+          (kidsN M (fun var y => treeNN Γ cfg M n (targetUri m.qname)
             (xtOf Γ (targetUri m.qname) var y) var.qname y) m fields) none
-  | _, _, _, _, q, _ => emptyTree M q
+  | _, _, _, q, _ => emptyTree M q
 
 /-- the tree of an item of `var` that is an object -/
 def itemRec (Γ : Ctx) (cfg : SerCfg) (M : NsMap) (n : Nat) (pns : Option Str) (var : XmlVar) (y : Val) : Tree :=
-  treeNN Γ cfg M n pns var.nillable (xtOf Γ pns var y) var.qname y
+  treeNN Γ cfg M n pns (xtOf Γ pns var y) var.qname y
 
 /-- the prefix map serves every `xsi:type` written in `evs` -/
 def TypesGood (e : BEnv) (M : NsMap) (evs : List Ev) : Prop :=
@@ -79,33 +80,40 @@ theorem TypesGood.mono {e : BEnv} {M : NsMap} {evs evs' : List Ev} (h : TypesGoo
 /-- the statement proved by induction on `n` (cf. `MainStmt`): `nl` says that the element is
 written for a nillable var -/
 def MainStmtN (ft : Feat) (e : BEnv) (Γ : Ctx) (cfg : SerCfg) (pcfg : ParserConfig) (M : NsMap) (n : Nat) : Prop :=
-  ∀ (v : Val) (c : ClassId) (pnsG pnsP : Option Str) (oq : Option QN) (q : QN) (fuel : Nat)
-    (mg mp : XmlMeta) (nl : Bool) (xt : Option QN),
-    metaOf Γ c pnsG = some mg → metaOf Γ c pnsP = some mp → dropQ mg = dropQ mp →
-    resolveQ oq mg = q → nsAgreeN ft Γ mp q = true → valObjN ft.inherit e Γ n pnsP c nl xt v = true →
+  ∀ (v : Val) (c : ClassId) (pnsP : Option Str) (oq : Option QN) (q : QN) (fuel : Nat)
+    (mp : XmlMeta) (xt : Option QN),
+    metaOf Γ c pnsP = some mp →
+    resolveQ oq mp = q → valObjN ft.inherit e Γ n pnsP c xt v = true →
     4 * v.size ≤ fuel →
     ∃ evs a text kids,
-      genObj e Γ cfg fuel v pnsG oq nl xt = .ok evs ∧
-      treeNN Γ cfg M n pnsP nl xt q v = .node q a M text kids none ∧
-      SubW M (isDatatype Γ) evs (treeSax (treeNN Γ cfg M n pnsP nl xt q v)) ∧
-      plain M (treeNN Γ cfg M n pnsP nl xt q v) = true ∧
-      (xsiNilOf a = none ∨ (xsiNilOf a = some true ∧ (nl || mp.nillable) = true)) ∧
+      genObj e Γ cfg fuel v pnsP oq false xt = .ok evs ∧
+      treeNN Γ cfg M n pnsP xt q v = .node q a M text kids none ∧
+      SubW M (isDatatype Γ) evs (treeSax (treeNN Γ cfg M n pnsP xt q v)) ∧
+      plain M (treeNN Γ cfg M n pnsP xt q v) = true ∧
+      (xsiNilOf a = none ∨ (xsiNilOf a = some true ∧ mp.nillable = true)) ∧
       -- the parser side needs the prefix of the `xsi:type` values
       (TypesGood e M evs →
         xsiTypeOf e a M = .ok xt ∧
-        ∀ xtN, parseNode e Γ pcfg (.element mp a M false xtN (xsiNilOf a)) (treeNN Γ cfg M n pnsP nl xt q v) =
+        ∀ xtN, parseNode e Γ pcfg (.element mp a M false xtN (xsiNilOf a)) (treeNN Γ cfg M n pnsP xt q v) =
           .ok ⟨[(some q, v)], 0⟩)
 
 /-! ### `parseNode` on an element node, from its parts -/
 
+/-- the entries `bind_objects` handles: items of a declared element, or generic items of the list
+wildcard -/
+def EntryK (m : XmlMeta) (var : XmlVar) (y : Val) : Prop :=
+  ElemFactsN m var ∨ (WildFactsN m var ∧ ∃ q t tl a kids, y = .any q t tl a kids)
+
 theorem parseNode_element_N (e : BEnv) (Γ : Ctx) (pcfg : ParserConfig) (m : XmlMeta) (q : QN)
     (a : List (QN × Str)) (M : NsMap) (text : Option Str) (kids : List Tree)
     (entries : List (XmlVar × Val)) (stF : ElState) (PA PT : Params) (bt : Bool) (v : Val)
-    (hc : m.choices = []) (hw : m.wildcards = [])
+    (hc : m.choices = [])
+    (hw : m.wildcards = [] ∨ (text = none ∧ ∃ wv, m.wildcards = [wv] ∧ wv.mixed = false))
     (hnil : xsiNilOf a = some true → m.nillable = true)
     (hK : parseKids e Γ pcfg m {} none kids =
       .ok (⟨entries.map (fun en => (some en.1.qname, en.2)), 0⟩, stF))
-    (hE : ∀ en ∈ entries, ElemFactsN m en.1) (hWs : WsOK stF.wrappers entries)
+    (hE : ∀ en ∈ entries, EntryK m en.1 en.2) (hWs : WsOK stF.wrappers entries)
+    (hFr : FreshOK PA entries)
     (hA : bindAttrs e pcfg m a M = .ok (PA, 0))
     (hT : bindText e pcfg m (xsiNilOf a) M (bindEntries PA entries) text = .ok (bt, PT, 0))
     (hF : classFactory Γ m.clazz PT = .ok v) (xtN : Option QN) :
@@ -116,12 +124,24 @@ theorem parseNode_element_N (e : BEnv) (Γ : Ctx) (pcfg : ParserConfig) (m : Xml
     by_cases h : xsiNilOf a = some true
     · simp [h, hnil h]
     · simp [h]
-  simp only [hK, bind, Except.bind, hcond, if_true, hA, XmlMeta.findAnyWildcard, hw, List.head?_nil]
-  rw [bindObjects_genN (m := m) _ ?_ entries PA stF.wrappers hE hWs]
-  · simp [hT, hF, normalizeContent, pure, Except.pure]
-  · intro P ws var y hf hpop
-    obtain ⟨b, hb⟩ := bindObject_N hf hc hw ws P y hpop
-    simp [hb, bind, Except.bind, pure, Except.pure]
+  rcases hw with h | ⟨ht, wv, h, hm⟩
+  · have hfw : m.findAnyWildcard = none := by simp [XmlMeta.findAnyWildcard, h]
+    simp only [hK, bind, Except.bind, hcond, if_true, hA, hfw, Bool.false_eq_true, if_false]
+    rw [bindObjects_genN (m := m) (EntryK m) _ ?_ entries PA stF.wrappers hE hWs hFr]
+    · simp [hT, hF, normalizeContent, pure, Except.pure]
+    · intro P ws var y hk hpop hfr
+      rcases hk with hf | ⟨hwf, q', t, tl, a', kids', rfl⟩
+      · simp [bindObject_N hf hc ws P y hpop hfr, bind, Except.bind, pure, Except.pure]
+      · simp [bindObject_W hwf ws P _ _ _ _ _ hpop, bind, Except.bind, pure, Except.pure]
+  · have hfw : m.findAnyWildcard = some wv := by simp [XmlMeta.findAnyWildcard, h]
+    subst ht
+    simp only [hK, bind, Except.bind, hcond, if_true, hA, hfw, hm, Bool.false_eq_true, if_false]
+    rw [bindObjects_genN (m := m) (EntryK m) _ ?_ entries PA stF.wrappers hE hWs hFr]
+    · cases bt <;> simp [hT, hF, normalizeContent, bindWildText, pure, Except.pure]
+    · intro P ws var y hk hpop hfr
+      rcases hk with hf | ⟨hwf, q', t, tl, a', kids', rfl⟩
+      · simp [bindObject_N hf hc ws P y hpop hfr, bind, Except.bind, pure, Except.pure]
+      · simp [bindObject_W hwf ws P _ _ _ _ _ hpop, bind, Except.bind, pure, Except.pure]
 
 
 /-! ### one element var: everything the induction step needs -/
@@ -141,16 +161,17 @@ structure VarBundle (e : BEnv) (Γ : Ctx) (cfg : SerCfg) (pcfg : ParserConfig) (
         (var.init = false ∧ ∃ p, x = .prim p ∧ var.default = .val p)))
 
 theorem itemTreeNN_prim (M : NsMap) (rec : XmlVar → Val → Tree) (var : XmlVar) {y : Val}
-    (h : ∀ c fs, y ≠ .obj c fs) : itemTreeNN M rec var y = primItemTree M var y := by
-  cases y <;> first | rfl | exact absurd rfl (h _ _)
+    (h : ∀ c fs, y ≠ .obj c fs) (h' : ∀ q t tl a k, y ≠ .any q t tl a k) :
+    itemTreeNN M rec var y = primItemTree M var y := by
+  cases y <;> first | rfl | exact absurd rfl (h _ _) | exact absurd rfl (h' _ _ _ _ _)
 
 /-- a primitive-like item: all three sides -/
 theorem primItem_all (e : BEnv) (Γ : Ctx) (cfg : SerCfg) (pcfg : ParserConfig) (M : NsMap)
     (ns : Option Str) (rec : XmlVar → Val → Tree) {m : XmlMeta} {var : XmlVar}
-    (hf : ElemFactsN m var) (hw : m.wildcards = []) (hcl : var.clazz = none) {t : PT}
+    (hf : ElemFactsN m var) (hw : m.mixedContent = false) (hcl : var.clazz = none) {t : PT}
     (hty : var.types = [.prim t]) {y : Val} (hy : PrimItem e var t y)
     (h1 : y = .none → var.default = .none ∨ (var.default = .listFactory ∧ var.tokens = false))
-    (h2 : ∀ p, y = .prim p → var.tokens = false ∧ (p = .str [] → var.nillable = false ∧
+    (h2 : ∀ p, y = .prim p → var.tokens = false ∧ (p = .str [] →
       (var.default = .none ∨ var.default = .val (.str []) ∨ var.default = .listFactory)))
     (h3 : y = .list [] → var.default = .listFactory)
     (htk : var.tokens = false → ∀ ys, y ≠ .list ys) (f : Nat) (hfuel : 2 ≤ f) :
@@ -159,7 +180,9 @@ theorem primItem_all (e : BEnv) (Γ : Ctx) (cfg : SerCfg) (pcfg : ParserConfig) 
     plain M (itemTreeNN M rec var y) = true ∧ ItemP e Γ pcfg M m var y (itemTreeNN M rec var y) := by
   have hno : ∀ c fs, y ≠ .obj c fs := by
     intro c fs h; subst h; cases hy
-  rw [itemTreeNN_prim M rec var hno]
+  have hno' : ∀ q t tl a k, y ≠ .any q t tl a k := by
+    intro q t tl a k h; subst h; cases hy
+  rw [itemTreeNN_prim M rec var hno hno']
   obtain ⟨d, hd, hce⟩ := convertElement_N hf hy
   have hsub := primItem_SubW (Γ := Γ) M hy hd
   refine ⟨⟨_, ?_, hsub⟩, itemP_prim e Γ pcfg M hf hw hcl hty hy h1 h2 h3⟩
@@ -178,15 +201,17 @@ theorem primItem_all (e : BEnv) (Γ : Ctx) (cfg : SerCfg) (pcfg : ParserConfig) 
 theorem primItemOK_cases {var : XmlVar} {t : PT} {y : Val} (h : primItemOK var t y = true) :
     (y = .none ∧ var.nillable = true) ∨
     ∃ p, y = .prim p ∧ primHasType p t = true ∧
-      (p = .str [] → var.nillable = false ∧ (var.listElement = true ∨ var.default = .none ∨
+      (p = .str [] → (var.listElement = true ∨ var.default = .none ∨
         var.default = .val (.str []))) := by
   cases y <;> simp [primItemOK] at h
   · exact Or.inl ⟨rfl, h⟩
   · rename_i p
     refine Or.inr ⟨p, rfl, h.1, fun hp => ?_⟩
-    rcases h.2 with h' | h'
+    rcases h.2 with ((h' | h') | h') | h'
     · exact absurd hp h'
-    · exact ⟨h'.1, by rcases h'.2 with (h | h) | h <;> simp [h]⟩
+    · exact Or.inl h'
+    · exact Or.inr (Or.inl h')
+    · exact Or.inr (Or.inr h')
 
 theorem Toks.notArray {e : BEnv} {t : PT} {ys : List Val} (h : Toks e t ys) :
     ∀ y ∈ ys, y.isArray = false := by
@@ -197,19 +222,19 @@ theorem Toks.notArray {e : BEnv} {t : PT} {ys : List Val} (h : Toks e t ys) :
 /-- an element var of primitive type -/
 theorem prim_bundle (e : BEnv) (Γ : Ctx) (cfg : SerCfg) (pcfg : ParserConfig) (M : NsMap)
     (ns : Option Str) (rec : XmlVar → Val → Tree) {m : XmlMeta} {ci : ClassInfo} {var : XmlVar}
-    (hf : ElemFactsN m var) (hw : m.wildcards = []) {t : PT} (hcl : var.clazz = none)
+    (hf : ElemFactsN m var) (hw : m.mixedContent = false) {t : PT} (hcl : var.clazz = none)
     (hp : primTypeOf var = some t) (hty : var.types = [.prim t])
-    (hd : if var.tokens || var.listElement then
-            var.default = .listFactory ∧ ¬ (var.tokens = true ∧ var.listElement = true ∧ var.nillable = true)
+    (hd : if var.tokens || var.listElement then var.default = .listFactory
           else scalarDefault var.default t = true ∧ (var.nillable = true → var.default = .none))
     (hinit : var.init = true ∨ fixedOK var = true)
-    {x : Val} {inh : Bool} (rc : ClassId → Bool → Option QN → Val → Bool)
+    {x : Val} {inh : Bool} (rc : ClassId → Option QN → Val → Bool)
     (hx : FN.elemValOK inh e Γ m ci var rc x = true) (f : Nat) (hfuel : 2 ≤ f) :
     VarBundle e Γ cfg pcfg M m ci ns rec f var x := by
   unfold FN.elemValOK at hx
   rw [Bool.and_eq_true] at hx
   obtain ⟨hfx, hx⟩ := hx
-  simp only [hcl, hp] at hx
+  have hnw : var.isWildcard = false := by simp [VarCore.isWildcard, hf.isElem]
+  simp only [hnw, Bool.false_eq_true, if_false, hcl, hp] at hx
   -- a var with `init=False` is a scalar that is not nillable
   have hfixed : var.init = false → var.tokens = false ∧ var.listElement = false ∧ var.nillable = false ∧
       ∃ p, x = .prim p ∧ var.default = .val p := by
@@ -243,13 +268,9 @@ theorem prim_bundle (e : BEnv) (Γ : Ctx) (cfg : SerCfg) (pcfg : ParserConfig) (
       cases x <;> simp at hx
       rename_i xs
       have hxs : ∀ y ∈ xs, ∃ ys, y = .list ys ∧ Toks e t ys := fun y hy => toks_of (hx y hy)
-      have hnn : var.nillable = false := by
-        cases hn : var.nillable with
-        | false => rfl
-        | true => exact absurd (by simp [hl, hn]) hd.2
       have hitems : itemsN var (.list xs) = xs := by
         cases xs with
-        | nil => simp [itemsN, htok, hnn]
+        | nil => simp [itemsN, htok, hl]
         | cons a l =>
           obtain ⟨ys, rfl, _⟩ := hxs a (by simp)
           simp [itemsN, htok]
@@ -259,11 +280,11 @@ theorem prim_bundle (e : BEnv) (Γ : Ctx) (cfg : SerCfg) (pcfg : ParserConfig) (
         intro y hy fI hF
         obtain ⟨ys, rfl, hys⟩ := hxs y hy
         exact primItem_all e Γ cfg pcfg M ns rec hf hw hcl hty (PrimItem.toks ys htok hys)
-          (fun h => by cases h) (fun p h => by cases h) (fun _ => hd.1)
+          (fun h => by cases h) (fun p h => by cases h) (fun _ => hd)
           (fun h => by simp [htok] at h) fI (hfI fI hF)
       · rw [hitems]
         cases xs with
-        | nil => exact Or.inr ⟨by simp [finalParam, hl, hi], Or.inr (Or.inl ⟨rfl, hd.1⟩)⟩
+        | nil => exact Or.inr ⟨by simp [finalParam, hl, hi], Or.inr (Or.inl ⟨rfl, hd⟩)⟩
         | cons a l => exact Or.inl (by simp [finalParam, hl, hi])
     · -- one token list
       have hl' : var.listElement = false := by simpa using hl
@@ -272,7 +293,7 @@ theorem prim_bundle (e : BEnv) (Γ : Ctx) (cfg : SerCfg) (pcfg : ParserConfig) (
       have hitems : itemsN var (.list ys) =
           if ys.isEmpty then (if var.nillable then [.list ys] else []) else [.list ys] := by
         cases ys with
-        | nil => simp [itemsN, htok]
+        | nil => simp [itemsN, htok, hl']
         | cons a l =>
           obtain ⟨p, rfl, _, _⟩ := hys a (by simp)
           simp [itemsN, htok]
@@ -287,7 +308,7 @@ theorem prim_bundle (e : BEnv) (Γ : Ctx) (cfg : SerCfg) (pcfg : ParserConfig) (
           · simpa using hy
         subst hyy
         exact primItem_all e Γ cfg pcfg M ns rec hf hw hcl hty (PrimItem.toks ys htok hys)
-          (fun h => by cases h) (fun p h => by cases h) (fun _ => hd.1)
+          (fun h => by cases h) (fun p h => by cases h) (fun _ => hd)
           (fun h => by simp [htok] at h) fI (hfI fI hF)
       · rw [hitems]; split <;> (try split) <;> simp
       · rw [hitems]
@@ -296,7 +317,7 @@ theorem prim_bundle (e : BEnv) (Γ : Ctx) (cfg : SerCfg) (pcfg : ParserConfig) (
           by_cases hn : var.nillable = true
           · exact Or.inl (by simp [finalParam, hl', hn, hi])
           · have hn' : var.nillable = false := by simpa using hn
-            exact Or.inr ⟨by simp [finalParam, hl', hn', hi], Or.inr (Or.inl ⟨rfl, hd.1⟩)⟩
+            exact Or.inr ⟨by simp [finalParam, hl', hn', hi], Or.inr (Or.inl ⟨rfl, hd⟩)⟩
         | cons a l => exact Or.inl (by simp [finalParam, hl', hi])
   · have htok' : var.tokens = false := by simpa using htok
     simp only [htok', Bool.false_eq_true, if_false, Bool.false_or] at hx hd
@@ -314,15 +335,15 @@ theorem prim_bundle (e : BEnv) (Γ : Ctx) (cfg : SerCfg) (pcfg : ParserConfig) (
         intro y hy fI hF
         rcases hcases y hy with ⟨rfl, hn⟩ | ⟨p, rfl, hpt, hemp⟩
         · exact primItem_all e Γ cfg pcfg M ns rec hf hw hcl hty (PrimItem.none hn)
-            (fun _ => Or.inr ⟨hd.1, htok'⟩) (fun p h => by cases h) (fun h => by cases h)
+            (fun _ => Or.inr ⟨hd, htok'⟩) (fun p h => by cases h) (fun h => by cases h)
             (fun _ ys h => by cases h) fI (hfI fI hF)
         · exact primItem_all e Γ cfg pcfg M ns rec hf hw hcl hty (PrimItem.prim p hpt)
             (fun h => by cases h)
-            (fun p' h => by cases h; exact ⟨htok', fun hp' => ⟨(hemp hp').1, Or.inr (Or.inr hd.1)⟩⟩)
+            (fun p' h => by cases h; exact ⟨htok', fun _ => Or.inr (Or.inr hd)⟩)
             (fun h => by cases h) (fun _ ys h => by cases h) fI (hfI fI hF)
       · rw [hitems]
         cases xs with
-        | nil => exact Or.inr ⟨by simp [finalParam, hl, hi], Or.inr (Or.inl ⟨rfl, hd.1⟩)⟩
+        | nil => exact Or.inr ⟨by simp [finalParam, hl, hi], Or.inr (Or.inl ⟨rfl, hd⟩)⟩
         | cons a l => exact Or.inl (by simp [finalParam, hl, hi])
     · have hl' : var.listElement = false := by simpa using hl
       simp only [hl', Bool.false_eq_true, if_false] at hx hd
@@ -368,8 +389,8 @@ theorem prim_bundle (e : BEnv) (Γ : Ctx) (cfg : SerCfg) (pcfg : ParserConfig) (
             (fun h => by cases h)
             (fun p' h => by
               cases h
-              refine ⟨htok', fun hp' => ⟨(hemp hp').1, ?_⟩⟩
-              rcases (hemp hp').2 with h | h | h
+              refine ⟨htok', fun hp' => ?_⟩
+              rcases hemp hp' with h | h | h
               · rw [hl'] at h; cases h
               · exact Or.inl h
               · exact Or.inr (Or.inl h))
@@ -447,13 +468,10 @@ theorem objItem_N (ft : Feat) (e : BEnv) (Γ : Ctx) (cfg : SerCfg) (pcfg : Parse
     (IH : MainStmtN ft e Γ cfg pcfg M n) {m : XmlMeta} {var : XmlVar} (hf : ElemFactsN m var)
     {c : ClassId} (hcl : var.clazz = some c) (htk : var.tokens = false)
     (hty : var.types = [.cls c])
-    (hns' : ∀ k ∈ classesFor ft Γ c, ∀ mk, metaOf Γ k (targetUri m.qname) = some mk →
-      nsAgreeN ft Γ mk var.qname = true)
-    (q : QN) (hnsq : nsAgreeN ft Γ m q = true) (hmem : var ∈ m.elementVars)
     (y : Val)
-    (hy : objOK ft.inherit Γ (targetUri m.qname) var c (valObjN ft.inherit e Γ n (targetUri m.qname)) y = true)
+    (hy : objOK ft.inherit Γ (targetUri m.qname) c (valObjN ft.inherit e Γ n (targetUri m.qname)) y = true)
     (f : Nat) (hfuel : 4 * y.size + 3 ≤ f) :
-    (∃ evs, itemGen e Γ cfg var (targetUri q) f y = .ok evs ∧
+    (∃ evs, itemGen e Γ cfg var (targetUri m.qname) f y = .ok evs ∧
       SubW M (isDatatype Γ) evs
         (treeSax (itemTreeNN M (itemRec Γ cfg M n (targetUri m.qname)) var y)) ∧
       (TypesGood e M evs →
@@ -467,7 +485,7 @@ theorem objItem_N (ft : Feat) (e : BEnv) (Γ : Ctx) (cfg : SerCfg) (pcfg : Parse
   cases y with
   | obj cls fs =>
     have hit : itemTreeNN M (itemRec Γ cfg M n (targetUri m.qname)) var (.obj cls fs) =
-        treeNN Γ cfg M n (targetUri m.qname) var.nillable (xtOf Γ (targetUri m.qname) var (.obj cls fs))
+        treeNN Γ cfg M n (targetUri m.qname) (xtOf Γ (targetUri m.qname) var (.obj cls fs))
           var.qname (.obj cls fs) := rfl
     rw [hit]
     simp only [objOK] at hy
@@ -490,25 +508,21 @@ theorem objItem_N (ft : Feat) (e : BEnv) (Γ : Ctx) (cfg : SerCfg) (pcfg : Parse
             cases hfd : Γ.find cls with
             | none => simp [hfd] at hy
             | some ci => simp [hfd, hmo ci hfd] at hy
-      have hagree := nsAgreeN_var hnsq hmem hcl (mem_classesFor_self ft Γ cls)
-      rw [hm'] at hagree
-      obtain ⟨mg', hmg', hdq⟩ : ∃ mg', metaOf Γ cls (targetUri q) = some mg' ∧ dropQ mg' = dropQ m' := by
-        cases hx : metaOf Γ cls (targetUri q) with
-        | none => simp [hx] at hagree
-        | some mg' => exact ⟨mg', rfl, by simpa [hx] using hagree⟩
-      have hq : resolveQ (some var.qname) mg' = var.qname := by simp [resolveQ, hqne]
+      have hq : resolveQ (some var.qname) m' = var.qname := by simp [resolveQ, hqne]
       obtain ⟨evs, a, text, kids, hgen, htree, hsub, hplain, hxn, hP⟩ :=
-        IH _ cls (targetUri q) (targetUri m.qname) (some var.qname) var.qname f' mg' m' var.nillable none
-          hmg' hm' hdq hq (hns' cls (mem_classesFor_self ft Γ cls) m' hm') hy (by omega)
+        IH _ cls (targetUri m.qname) (some var.qname) var.qname f' m' none hm' hq hy (by omega)
       refine ⟨⟨evs, ?_, hsub, fun hgood => ?_⟩, hplain⟩
       · simp only [itemGen, htk, Bool.false_eq_true, if_false]
-        rw [genValue_objN e Γ cfg hf htk cls fs (targetUri q) hty f']; exact hgen
+        rw [genValue_objN e Γ cfg hf htk cls fs (targetUri m.qname) hty f']; exact hgen
       · obtain ⟨hxt, hparse⟩ := hP hgood
         have hfetch : Γ.fetch cls (targetUri m.qname) none = .ok m' := by
           simp only [metaOf] at hm'
           simp [Ctx.fetch, hm']
-        exact ⟨a, text, kids, _, htree,
-          buildNode_clsX e Γ hf hcl a M none hfetch (fun h => by cases h) hxt hxn, hparse none⟩
+        refine ⟨a, text, kids, _, htree,
+          buildNode_clsX e Γ hf hcl a M none hfetch (fun h => by cases h) hxt ?_, hparse none⟩
+        rcases hxn with h | ⟨h, hn⟩
+        · exact Or.inl h
+        · exact Or.inr ⟨h, by simp [hn]⟩
     · -- an instance of a proper subclass, identified by `xsi:type`
       simp only [hcc, if_false, Bool.and_eq_true] at hy
       obtain ⟨⟨hinh, hsubc⟩, hy⟩ := hy
@@ -519,8 +533,8 @@ theorem objItem_N (ft : Feat) (e : BEnv) (Γ : Ctx) (cfg : SerCfg) (pcfg : Parse
         cases htq : ms.targetQName with
         | none => simp [htq] at hy
         | some t =>
-          simp only [htq, Bool.and_eq_true, decide_eq_true_eq] at hy
-          obtain ⟨⟨htne, hfe⟩, hyrec⟩ := hy
+          simp only [htq, Bool.and_eq_true] at hy
+          obtain ⟨hfe, hyrec⟩ := hy
           have hfetch : Γ.fetch c (targetUri m.qname) (some t) = .ok ms := by
             cases hfx : Γ.fetch c (targetUri m.qname) (some t) with
             | error err => simp [hfx] at hfe
@@ -529,41 +543,30 @@ theorem objItem_N (ft : Feat) (e : BEnv) (Γ : Ctx) (cfg : SerCfg) (pcfg : Parse
               rw [hfe]
           obtain ⟨ci, hfind, hmf⟩ : ∃ ci, Γ.find cls = some ci ∧ ci.metaFor (targetUri m.qname) = some ms := by
             simpa [metaOf, Option.bind_eq_some_iff] using hms
-          have hk : cls ∈ classesFor ft Γ c := mem_classesFor_sub hinh hfind hsubc
           have hmsclazz : ms.clazz = cls := by
             rw [(ctx_metaFactsN hΓ hfind hmf).1.clazz]; exact find_id hfind
           have hxt1 : xtOf Γ (targetUri m.qname) var (.obj cls fs) = some t := by
             have : ¬ (some c = some cls) := fun h => hcc (by cases h; rfl)
             simp [xtOf, hcl, this, hms, htq]
           rw [hxt1]
-          have hagree := nsAgreeN_var hnsq hmem hcl hk
-          rw [hms] at hagree
-          obtain ⟨mg', hmg', hdq⟩ : ∃ mg', metaOf Γ cls (targetUri q) = some mg' ∧ dropQ mg' = dropQ ms := by
-            cases hx : metaOf Γ cls (targetUri q) with
-            | none => simp [hx] at hagree
-            | some mg' => exact ⟨mg', rfl, by simpa [hx] using hagree⟩
-          have htq' : mg'.targetQName = some t := by
-            have := congrArg XmlMeta.targetQName hdq
-            simpa [dropQ, htq] using this
-          have hq : resolveQ (some var.qname) mg' = var.qname := by simp [resolveQ, hqne]
+          have hq : resolveQ (some var.qname) ms = var.qname := by simp [resolveQ, hqne]
           obtain ⟨evs, a, text, kids, hgen, htree, hsub, hplain, hxn, hP⟩ :=
-            IH _ cls (targetUri q) (targetUri m.qname) (some var.qname) var.qname f' mg' ms var.nillable
-              (some t) hmg' hms hdq hq (hns' cls hk ms hms) hyrec (by omega)
+            IH _ cls (targetUri m.qname) (some var.qname) var.qname f' ms (some t) hms hq hyrec (by omega)
           refine ⟨⟨evs, ?_, hsub, fun hgood => ?_⟩, hplain⟩
           · simp only [itemGen, htk, Bool.false_eq_true, if_false]
-            have hfg : Γ.fetch cls (targetUri q) none = .ok mg' := by
-              simp only [metaOf] at hmg'
-              simp [Ctx.fetch, hmg']
+            have hfg : Γ.fetch cls (targetUri m.qname) none = .ok ms := by
+              simp only [metaOf] at hms
+              simp [Ctx.fetch, hms]
             have hder : Γ.isDerived cls c = true := by simp [Ctx.isDerived, hsubc]
-            rw [genValue_objD e Γ cfg hf htk fs (targetUri q) hty hcl hcc hder hfg f']
-            have hreal : realXsiType var.qname mg'.targetQName = some t := by
-              have : ¬ (t = var.qname) := htne
-              simp [realXsiType, htq', this]
-            rw [hreal]; exact hgen
+            rw [genValue_objD e Γ cfg hf htk fs (targetUri m.qname) hty hcl hcc hder hfg f', htq]
+            exact hgen
           · obtain ⟨hxt, hparse⟩ := hP hgood
-            exact ⟨a, text, kids, _, htree,
+            refine ⟨a, text, kids, _, htree,
               buildNode_clsX e Γ hf hcl a M (some t) hfetch (fun _ => by rw [hmsclazz]; exact hsubc)
-                hxt hxn, hparse (some t)⟩
+                hxt ?_, hparse (some t)⟩
+            rcases hxn with h | ⟨h, hn⟩
+            · exact Or.inl h
+            · exact Or.inr ⟨h, by simp [hn]⟩
   | _ => simp [objOK] at hy
 
 theorem clsItemOK_cases {var : XmlVar} {b : Bool} {rc : Val → Bool} {y : Val}
@@ -571,8 +574,8 @@ theorem clsItemOK_cases {var : XmlVar} {b : Bool} {rc : Val → Bool} {y : Val}
     (y = .none ∧ var.nillable = true ∧ b = false) ∨ (y ≠ .none ∧ rc y = true) := by
   cases y <;> simp [clsItemOK] at h <;> first | exact Or.inl ⟨rfl, h.1, h.2⟩ | exact Or.inr ⟨by simp, h⟩
 
-theorem objOK_notArray {inh : Bool} {Γ : Ctx} {pns : Option Str} {var : XmlVar} {c : ClassId}
-    {rc : ClassId → Bool → Option QN → Val → Bool} {y : Val} (h : objOK inh Γ pns var c rc y = true) :
+theorem objOK_notArray {inh : Bool} {Γ : Ctx} {pns : Option Str} {c : ClassId}
+    {rc : ClassId → Option QN → Val → Bool} {y : Val} (h : objOK inh Γ pns c rc y = true) :
     y.isArray = false := by
   cases y <;> simp [objOK] at h <;> rfl
 
@@ -584,7 +587,7 @@ structure VarBundleG (e : BEnv) (Γ : Ctx) (cfg : SerCfg) (pcfg : ParserConfig) 
   items : ∀ y ∈ itemsN var x, ∀ fI, (fI = f + 1 ∨ (fI = f ∧ x.isArray = true)) →
     (∃ evs, itemGen e Γ cfg var ns fI y = .ok evs ∧
       SubW M (isDatatype Γ) evs (treeSax (itemTreeNN M rec var y)) ∧
-      (TypesGood e M evs → ItemP e Γ pcfg M m var y (itemTreeNN M rec var y))) ∧
+      (TypesGood e M evs → ItemK e Γ pcfg M m var y (itemTreeNN M rec var y))) ∧
     plain M (itemTreeNN M rec var y) = true
   short : var.listElement = false → (itemsN var x).length ≤ 1
   param : finalParam var (itemsN var x) = some x ∨
@@ -594,31 +597,31 @@ structure VarBundleG (e : BEnv) (Γ : Ctx) (cfg : SerCfg) (pcfg : ParserConfig) 
 
 theorem VarBundle.toG {e : BEnv} {Γ : Ctx} {cfg : SerCfg} {pcfg : ParserConfig} {M : NsMap}
     {m : XmlMeta} {ci : ClassInfo} {ns : Option Str} {rec : XmlVar → Val → Tree} {f : Nat}
-    {var : XmlVar} {x : Val} (h : VarBundle e Γ cfg pcfg M m ci ns rec f var x) :
+    {var : XmlVar} {x : Val} (h : VarBundle e Γ cfg pcfg M m ci ns rec f var x)
+    (hf : ElemFactsN m var) (hc : m.choices = []) :
     VarBundleG e Γ cfg pcfg M m ci ns rec f var x :=
   ⟨h.shape, fun y hy fI hF => by
     obtain ⟨⟨evs, hg, hs⟩, hp, hi⟩ := h.items y hy fI hF
-    exact ⟨⟨evs, hg, hs, fun _ => hi⟩, hp⟩, h.short, h.param⟩
+    exact ⟨⟨evs, hg, hs, fun _ => itemK_of_itemP hf hc hi⟩, hp⟩, h.short, h.param⟩
 
 /-- an element var of model type -/
 theorem cls_bundle (ft : Feat) (e : BEnv) (Γ : Ctx) (cfg : SerCfg) (pcfg : ParserConfig) (M : NsMap) (n : Nat)
     (hΓ : ctxOK ft Γ = true)
     (IH : MainStmtN ft e Γ cfg pcfg M n) {m : XmlMeta} {ci : ClassInfo} {var : XmlVar}
-    (hf : ElemFactsN m var) {c : ClassId} {m' : XmlMeta} (hcl : var.clazz = some c)
+    (hf : ElemFactsN m var) (hch : m.choices = []) {c : ClassId} {m' : XmlMeta} (hcl : var.clazz = some c)
     (htk : var.tokens = false) (hty : var.types = [.cls c])
     (hd : if var.listElement then var.default = .listFactory else var.default = .none)
     (hm' : metaOf Γ c (targetUri m.qname) = some m')
-    (hns' : ∀ k ∈ classesFor ft Γ c, ∀ mk, metaOf Γ k (targetUri m.qname) = some mk →
-      nsAgreeN ft Γ mk var.qname = true)
-    (q : QN) (hnsq : nsAgreeN ft Γ m q = true) (hmem : var ∈ m.elementVars) (hi : var.init = true) {x : Val}
+    (hi : var.init = true) {x : Val}
     (hx : FN.elemValOK ft.inherit e Γ m ci var (valObjN ft.inherit e Γ n (targetUri m.qname)) x = true)
     (f : Nat) (hfuel : 4 * x.size + 2 ≤ f) :
-    VarBundleG e Γ cfg pcfg M m ci (targetUri q) (itemRec Γ cfg M n (targetUri m.qname)) f var x := by
+    VarBundleG e Γ cfg pcfg M m ci (targetUri m.qname) (itemRec Γ cfg M n (targetUri m.qname)) f var x := by
   unfold FN.elemValOK at hx
   rw [Bool.and_eq_true] at hx
   replace hx := hx.2
-  simp only [hcl, hm'] at hx
-  have hnil := fun fI hfI => nilItem_cls e Γ cfg pcfg M (targetUri q) (itemRec Γ cfg M n (targetUri m.qname))
+  have hnw : var.isWildcard = false := by simp [VarCore.isWildcard, hf.isElem]
+  simp only [hnw, Bool.false_eq_true, if_false, hcl, hm'] at hx
+  have hnil := fun fI hfI => nilItem_cls e Γ cfg pcfg M (targetUri m.qname) (itemRec Γ cfg M n (targetUri m.qname))
     hf hcl htk hm' (f := fI) (hfuel := hfI)
   by_cases hl : var.listElement = true
   · simp only [hl, if_true] at hx hd
@@ -638,8 +641,9 @@ theorem cls_bundle (ft : Feat) (e : BEnv) (Γ : Ctx) (cfg : SerCfg) (pcfg : Pars
       have hfI : 4 * y.size + 3 ≤ fI := by rcases hF with h | h <;> omega
       rcases hcases y hy with ⟨rfl, hn, hmn⟩ | ⟨_, h⟩
       · obtain ⟨⟨evs, hg, hs⟩, hp, hI⟩ := hnil fI (by omega) hn hmn
-        exact ⟨⟨evs, hg, hs, fun _ => hI⟩, hp⟩
-      · exact objItem_N ft e Γ cfg pcfg M n hΓ IH hf hcl htk hty hns' q hnsq hmem y h fI hfI
+        exact ⟨⟨evs, hg, hs, fun _ => itemK_of_itemP hf hch hI⟩, hp⟩
+      · obtain ⟨⟨evs, hg, hs, hI⟩, hp⟩ := objItem_N ft e Γ cfg pcfg M n hΓ IH hf hcl htk hty y h fI hfI
+        exact ⟨⟨evs, hg, hs, fun hgood => itemK_of_itemP hf hch (hI hgood)⟩, hp⟩
     · rw [hitems]
       cases xs with
       | nil => exact Or.inr ⟨by simp [finalParam, hl, hi], Or.inr (Or.inl ⟨rfl, hd⟩)⟩
@@ -658,7 +662,7 @@ theorem cls_bundle (ft : Feat) (e : BEnv) (Γ : Ctx) (cfg : SerCfg) (pcfg : Pars
         simp only [List.mem_singleton] at hy
         subst hy
         obtain ⟨⟨evs, hg, hs⟩, hp, hI⟩ := hnil fI (by rcases hF with h | h <;> omega) hn hmn
-        exact ⟨⟨evs, hg, hs, fun _ => hI⟩, hp⟩
+        exact ⟨⟨evs, hg, hs, fun _ => itemK_of_itemP hf hch hI⟩, hp⟩
       · have hitems : itemsN var .none = [] := by simp [itemsN, hn]
         exact ⟨Shape.none htk hl', by simp [hitems], fun _ => by simp [hitems],
           Or.inr ⟨by simp [hitems, finalParam, hl', hi], Or.inl ⟨rfl, hfd⟩⟩⟩
@@ -670,10 +674,12 @@ theorem cls_bundle (ft : Feat) (e : BEnv) (Γ : Ctx) (cfg : SerCfg) (pcfg : Pars
       intro y hy fI hF
       simp only [List.mem_singleton] at hy
       subst hy
-      exact objItem_N ft e Γ cfg pcfg M n hΓ IH hf hcl htk hty hns' q hnsq hmem _ (by simpa using hx) fI
+      obtain ⟨⟨evs, hg, hs, hI⟩, hp⟩ := objItem_N ft e Γ cfg pcfg M n hΓ IH hf hcl htk hty _
+        (by simpa using hx) fI
         (by rcases hF with h | h
             · omega
             · simp [Val.isArray] at h)
+      exact ⟨⟨evs, hg, hs, fun hgood => itemK_of_itemP hf hch (hI hgood)⟩, hp⟩
     | prim p => simp at hx
     | list xs => simp at hx
     | any q' tx tl a cs => simp at hx
@@ -683,8 +689,8 @@ theorem cls_bundle (ft : Feat) (e : BEnv) (Γ : Ctx) (cfg : SerCfg) (pcfg : Pars
 
 /-- `None` only occurs among the items of a nillable var -/
 theorem items_nones {e : BEnv} {Γ : Ctx} {m : XmlMeta} {ci : ClassInfo} {var : XmlVar}
-    {rc : ClassId → Bool → Option QN → Val → Bool} {x : Val} {ft : Feat} {inh : Bool}
-    (hk : ElemKindN ft Γ m var)
+    {rc : ClassId → Option QN → Val → Bool} {x : Val} {ft : Feat} {inh : Bool}
+    (hk : ElemKindN ft Γ m var) (hnw : var.isWildcard = false)
     (hx : FN.elemValOK inh e Γ m ci var rc x = true) :
     ∀ y ∈ itemsN var x, y = .none → var.nillable = true := by
   intro y hy hnone
@@ -708,6 +714,7 @@ theorem items_nones {e : BEnv} {Γ : Ctx} {m : XmlMeta} {ci : ClassInfo} {var : 
         unfold FN.elemValOK at hx
         rw [Bool.and_eq_true] at hx
         replace hx := hx.2
+        simp only [hnw, Bool.false_eq_true, if_false] at hx
         cases hk with
         | prim t hc hp _ _ =>
           simp only [hc, hp, htok, if_true] at hx
@@ -718,13 +725,14 @@ theorem items_nones {e : BEnv} {Γ : Ctx} {m : XmlMeta} {ci : ClassInfo} {var : 
           · have hl' : var.listElement = false := by simpa using hl
             simp only [hl', Bool.false_eq_true, if_false] at hx
             simp [tokensOK] at hx
-        | cls c m' hc htk _ _ _ _ => rw [htok] at htk; cases htk
+        | cls c m' hc htk _ _ _ => rw [htok] at htk; cases htk
       · simp at hy
     · have htok' : var.tokens = false := by simpa using htok
       simp only [itemsN, htok', Bool.false_eq_true, if_false] at hy
       unfold FN.elemValOK at hx
       rw [Bool.and_eq_true] at hx
       replace hx := hx.2
+      simp only [hnw, Bool.false_eq_true, if_false] at hx
       cases hk with
       | prim t hc hp _ _ =>
         simp only [hc, hp, htok', Bool.false_eq_true, if_false] at hx
@@ -733,7 +741,7 @@ theorem items_nones {e : BEnv} {Γ : Ctx} {m : XmlMeta} {ci : ClassInfo} {var : 
           simpa [primItemOK] using hx _ hy
         · have hl' : var.listElement = false := by simpa using hl
           simp [hl', primItemOK] at hx
-      | cls c m' hc _ _ _ hm _ =>
+      | cls c m' hc _ _ _ hm =>
         simp only [hc, hm] at hx
         by_cases hl : var.listElement = true
         · simp only [hl, if_true, List.all_eq_true] at hx
@@ -747,5 +755,61 @@ theorem items_nones {e : BEnv} {Γ : Ctx} {m : XmlMeta} {ci : ClassInfo} {var : 
   | any q t tl a cs => simp [itemsN] at hy
   | derived q v t => simp [itemsN] at hy
   | attrs a => simp [itemsN] at hy
+
+/-! ### the list wildcard -/
+
+theorem wild_items {e : BEnv} {Γ : Ctx} {m : XmlMeta} {ci : ClassInfo} {var : XmlVar}
+    (hw : WildFactsN m var) {rc : ClassId → Option QN → Val → Bool} {x : Val} {inh : Bool}
+    (hx : FN.elemValOK inh e Γ m ci var rc x = true) :
+    ∃ xs, x = .list xs ∧ itemsN var x = xs ∧ ∀ y ∈ xs, wildItemOK e Γ m var y = true := by
+  unfold FN.elemValOK at hx
+  rw [Bool.and_eq_true] at hx
+  replace hx := hx.2
+  have hiw : var.isWildcard = true := by simp [VarCore.isWildcard, hw.isWild]
+  simp only [hiw, if_true] at hx
+  cases x <;> simp at hx
+  rename_i xs
+  exact ⟨xs, rfl, by simp [itemsN, hw.tokens], hx⟩
+
+/-- the list wildcard of a class: its generic items -/
+theorem wild_bundle (e : BEnv) (Γ : Ctx) (cfg : SerCfg) (pcfg : ParserConfig) (M : NsMap)
+    (ns : Option Str) (rec : XmlVar → Val → Tree) {m : XmlMeta} {ci : ClassInfo} {var : XmlVar}
+    (hw : WildFactsN m var) {rc : ClassId → Option QN → Val → Bool} {x : Val} {inh : Bool}
+    (hx : FN.elemValOK inh e Γ m ci var rc x = true) (f : Nat) (hfuel : 4 * x.size + 2 ≤ f) :
+    VarBundleG e Γ cfg pcfg M m ci ns rec f var x := by
+  obtain ⟨xs, rfl, hitems, hall⟩ := wild_items hw hx
+  have hany := fun y hy => wildItemOK_any (hall y hy)
+  refine ⟨Shape.list xs hw.tokens hw.list ?_, ?_, fun h => by simp [hw.list] at h, ?_⟩
+  · intro y hy
+    obtain ⟨q, t, a, kids, rfl, _⟩ := hany y hy
+    rfl
+  · rw [hitems]
+    intro y hy fI hF
+    have hsz := size_le_sizeList hy
+    simp only [Val.size] at hfuel
+    obtain ⟨q, t, a, kids, rfl, _, _, _, _, _, hcanon⟩ := hany y hy
+    obtain ⟨f', rfl⟩ : ∃ f', fI = f' + 1 := ⟨fI - 1, by rcases hF with h | h <;> omega⟩
+    have htree : itemTreeNN M rec var (.any (some q) (some t) none a kids) =
+        treeOfAny M (.any (some q) (some t) none a kids) := rfl
+    rw [htree]
+    refine ⟨⟨_, ?_, SubW_treeOfAny e Γ M hcanon, fun _ => itemK_wild e Γ pcfg M hw (hall _ hy)⟩,
+      plain_treeOfAny e Γ M _ hcanon⟩
+    simp only [itemGen, hw.tokens, Bool.false_eq_true, if_false]
+    rw [genValue_any_wild e Γ cfg hw.isWild hw.mixed hw.tokens]
+    exact genAnyType_canon e Γ cfg M var hcanon f' (by rcases hF with h | h <;> omega) ns
+  · rw [hitems]
+    cases xs with
+    | nil => exact Or.inr ⟨by simp [finalParam, hw.list, hw.init], Or.inr (Or.inl ⟨rfl, hw.default⟩)⟩
+    | cons a l => exact Or.inl (by simp [finalParam, hw.list, hw.init])
+
+theorem items_nones_wild {e : BEnv} {Γ : Ctx} {m : XmlMeta} {ci : ClassInfo} {var : XmlVar}
+    (hw : WildFactsN m var) {rc : ClassId → Option QN → Val → Bool} {x : Val} {inh : Bool}
+    (hx : FN.elemValOK inh e Γ m ci var rc x = true) :
+    ∀ y ∈ itemsN var x, y = .none → var.nillable = true := by
+  obtain ⟨xs, rfl, hitems, hall⟩ := wild_items hw hx
+  rw [hitems]
+  intro y hy hn
+  subst hn
+  simpa [wildItemOK] using hall _ hy
 
 end Proofs.C01
